@@ -71,7 +71,7 @@ def cases_trn(tier, seed):
 
 def eval_trn(env, case):
     env.begin(case)
-    t2i = tok2id(env.seed)
+    t2i = tok2id(env.seed, case.get("big_ids"))
     prefix, suffix, size = case["prefix"], case["suffix"], case["size"]
     lines, expect = [], {}
     for u, toks in case["utts"]:
@@ -249,7 +249,7 @@ def _check_timed_dir(env, api, snap, expect, t2i, prefix, suffix, size, flags):
 
 def eval_ctm(env, case):
     env.begin(case)
-    t2i = tok2id(env.seed)
+    t2i = tok2id(env.seed, case.get("big_ids"))
     prefix, suffix, fs, size = case["prefix"], case["suffix"], case["fs"], case["size"]
     rows = []
     for u in case["utts"]:
@@ -375,7 +375,7 @@ def cases_tg(tier, seed):
 
 def eval_tg(env, case):
     env.begin(case)
-    t2i = tok2id(env.seed)
+    t2i = tok2id(env.seed, case.get("big_ids"))
     prefix, suffix, tgsuf, fs = case["prefix"], case["suffix"], case["tgsuf"], case["fs"]
     tname = "words" if case["tier"] == "name" else "transcript"
     tgdir, ref, featdir, tgout = env.p("tg"), env.p("ref"), env.p("feat"), env.p("tg_out")
@@ -394,7 +394,8 @@ def eval_tg(env, case):
                 filled.append(["c", cur, u["T"]])
             segs = filled
         expect[u["id"]] = (segs, u["point"])
-        save(torch.zeros(u["T"], 2), os.path.join(featdir, prefix + u["id"] + suffix))
+        if case["len"] == "feat":
+            save(torch.zeros(u["T"], 2), os.path.join(featdir, prefix + u["id"] + suffix))
     dummy = O.textgrid_text([["a", 0, 1]], False, fs, 1)
     write(os.path.join(tgdir, prefix + "zz.other"), dummy)
     if prefix:
@@ -452,7 +453,8 @@ def eval_tg(env, case):
         return a
 
     args2 = mk2(tgout)
-    flags2 = {"method": method, "precision_flag": case["precision"] is not None, "size": size}
+    flags2 = {"method": method, "precision_flag": case["precision"] is not None, "size": size,
+              "late_times": max(e for u in case["utts"] for _, _, e in u["segs"]) > 2 ** 24}
     res = run_cmd(C.torch_token_data_dir_to_textgrids, args2 + ["--num-workers", 0])
     env.ev(api2)
     if not ok(res):
